@@ -22,8 +22,9 @@ type Case struct {
 	Key   string `json:"key"`
 	Usage uint32 `json:"usage"`
 	Plain string `json:"plain"`
-	Conf  string `json:"confounder"` // used by the reference when it encrypts
-	Dir   string `json:"dir"`        // lib2ref | ref2lib | fresh
+	Conf  string `json:"confounder"`     // used by the reference when it encrypts
+	Dir   string `json:"dir"`            // lib2ref | ref2lib | fresh
+	Then  int32  `json:"then,omitempty"` // afterwards run both directions with the same key octets and usage under this sibling etype of equal key length, then the first etype again
 }
 
 func usageClass(u uint32) string {
@@ -48,6 +49,26 @@ func padded(et int32, p []byte) []byte {
 
 // Eval judges one Case.
 func Eval(c Case) evid.Verdict {
+	v := eval1(c)
+	if v.OK && c.Then != 0 && c.Dir != "fresh" {
+		// no hidden state: the same key octets and usage under another etype, then under the first one again
+		for _, step := range []struct {
+			et  int32
+			dir string
+		}{{c.Then, "lib2ref"}, {c.Then, "ref2lib"}, {c.EType, "ref2lib"}, {c.EType, "lib2ref"}} {
+			c2 := c
+			c2.EType, c2.Dir, c2.Then = step.et, step.dir, 0
+			if v2 := eval1(c2); !v2.OK {
+				v2.Sig = "after-sibling-etype:" + v2.Sig
+				v2.Msg = fmt.Sprintf("after using the same key octets and usage under etype %d/%d: %s", c.EType, c.Then, v2.Msg)
+				return v2
+			}
+		}
+	}
+	return v
+}
+
+func eval1(c Case) evid.Verdict {
 	return evid.SafeEval(func() evid.Verdict {
 		key, _ := hex.DecodeString(c.Key)
 		plain, _ := hex.DecodeString(c.Plain)
@@ -142,8 +163,11 @@ func lenClass(et int32, n int) string {
 
 func count(r *evid.Run, c Case) {
 	n := len(c.Plain) / 2
-	r.Count(fmt.Sprintf("%d|%d|%d|%s", c.EType, n, c.Usage, c.Dir),
-		fmt.Sprintf("etype%d", c.EType), lenClass(c.EType, n), usageClass(c.Usage), c.Dir)
+	lab := []string{fmt.Sprintf("etype%d", c.EType), lenClass(c.EType, n), usageClass(c.Usage), c.Dir}
+	if c.Then != 0 {
+		lab = append(lab, "then-sibling-etype-with-same-key")
+	}
+	r.Count(fmt.Sprintf("%d|%d|%d|%s|%d", c.EType, n, c.Usage, c.Dir, c.Then), lab...)
 	r.Sample(fmt.Sprintf("%s/etype%d", c.Dir, c.EType), c)
 }
 
@@ -172,6 +196,15 @@ func TestProp(t *testing.T) {
 		}
 		c.Plain = hex.EncodeToString(kgen.Bytes(t, "plain", n))
 		c.Conf = hex.EncodeToString(kgen.Bytes(t, "conf", ref.ConfounderLen(et)))
+		var sib []int32
+		for _, o := range ref.ETypes {
+			if o != et && ref.KeyLen(o) == ref.KeyLen(et) {
+				sib = append(sib, o)
+			}
+		}
+		if len(sib) > 0 && rapid.IntRange(0, 3).Draw(t, "withsibling") == 0 {
+			c.Then = rapid.SampledFrom(sib).Draw(t, "sibling")
+		}
 		count(r, c)
 		if r.Judge("interop", c, Eval(c)) {
 			t.Fatalf("violation")
